@@ -128,3 +128,15 @@ def loop_index(n):
         if made and made[0] == os.path.join(d, _name()):
             return i
     raise NotImplementedError
+
+
+def ext_raised_in(name):
+    raise NotImplementedError     # not observable from outside
+
+
+def ext_call_result(name, k):
+    raise NotImplementedError
+
+
+def ext_call_kwarg(name, k, kw):
+    raise NotImplementedError
